@@ -21,6 +21,9 @@
 (*            candidate of what was produced, or the empty result          *)
 (*   clean    the run did not raise                                        *)
 (*   nolimit  with timeout 0 no check ever raises                          *)
+(*   onTime   a check raises iff more than <deadline> clock ticks have     *)
+(*            passed since the deadline function was created (whatever the *)
+(*            unit of a tick: picoseconds to 1e300 s)                      *)
 (***************************************************************************)
 EXTENDS Integers, Sequences, SequencesExt, TLC, Json, IOUtils
 
@@ -38,7 +41,14 @@ Step ==
   /\ l <= Len(TR[tid].ev)
   /\ l' = l + 1 /\ UNCHANGED tid
   /\ CASE Ev.ev = "Chk" -> /\ w' = 0 /\ dead' = (dead \/ Ev.expired = 1)
-                           /\ bad' = Flag(dead, "check-after-timeout")
+                           /\ bad' = IF dead THEN Flag(TRUE, "check-after-timeout")
+                                     \* el = clock ticks since the deadline function was created; the deadline lies after
+                                     \* <deadline> ticks: the first check beyond it - and no earlier one - notices
+                                     ELSE IF TR[tid].deadline > 0 /\ Ev.el > TR[tid].deadline /\ Ev.expired = 0
+                                          THEN Flag(TRUE, "deadline-passed-unnoticed")
+                                     ELSE IF TR[tid].deadline > 0 /\ Ev.el <= TR[tid].deadline /\ Ev.expired = 1
+                                          THEN Flag(TRUE, "expired-before-the-deadline")
+                                     ELSE bad
        [] Ev.ev = "W" -> /\ w' = w + Ev.n /\ dead' = dead
                          /\ bad' = IF dead THEN Flag(TRUE, "work-after-timeout") ELSE Flag(w + Ev.n > TR[tid].bound, "work-bound")
        [] Ev.ev = "WI" -> /\ w' = w + Ev.n /\ dead' = dead
